@@ -66,12 +66,16 @@ def check(prop, tier, seed):
     common.build_harness()
     rng = random.Random(seed * 59 + 1)
     srcs = corpus(rng, tier, wd, run)
-    R, P = (8, 4) if tier == "quick" else (48, 12)
+    R, P = (8, 4) if tier == "quick" else (32, 12)
     per_process = []
     orders_seen = 0
     multi_order_cases = 0
+    import concurrent.futures as cf
+    reqs = [{"id": i, "src": s, "want": ["rust"], "reps": R} for i, (_, s) in enumerate(srcs)]
+    with cf.ThreadPoolExecutor(max_workers=min(P, 6)) as ex:     # P separate processes, several at a time
+        all_resps = list(ex.map(lambda _: common.kv("gen", reqs, timeout=12000), range(P)))
     for p in range(P):
-        resps = common.kv("gen", [{"id": i, "src": s, "want": ["rust"], "reps": R} for i, (_, s) in enumerate(srcs)], timeout=6000)
+        resps = all_resps[p]
         per_process.append(resps)
         for (origin, s), o in zip(srcs, resps):
             run.evaluations += R + 1
